@@ -124,8 +124,8 @@ class Arm(Robot):
         self.original_screw_list_body = np.copy(screw_list)
         if self._joint_homes_global is not None:
             for i in range((self.num_dof)):
-                base_to_link = fsr.globalToLocal(self._base_pos_global, self._joint_homes_global[i])
-                new_global = fsr.localToGlobal(base_pos_global, base_to_link)
+                base_to_link = self._base_pos_global.inv() @ self._joint_homes_global[i]
+                new_global = base_pos_global @ base_to_link
                 self._joint_homes_global[i] = new_global
         else:
             self._joint_homes_global = [tm()]
@@ -892,8 +892,8 @@ class Arm(Robot):
             theta (np.ndarray[float], optional): configuration for joints. Defaults to None.
         """        
         end_effector_temp = self.FK(theta)
-        old_to_new = fsr.globalToLocal(end_effector_temp, new_home_global)
-        new_home = fsr.localToGlobal(self._end_effector_home, old_to_new)
+        old_to_new = end_effector_temp.inv() @ new_home_global
+        new_home = self._end_effector_home @ old_to_new
         self._end_effector_home = new_home
         self._helper_determine_eef_to_last_joint()
         self.FK(self._theta, protect = True)
